@@ -159,6 +159,28 @@ def cases(tier, seed):
                             "line_search": (True if method in RF_METHODS else None), "feat_ndims": fnd,
                             "family": fam, "dtype": "float64", "n": n, "shape": kind, "guess": guess, "f_tol": ft,
                             "x_tol": xt, "maxiter": "gen", "plane": 0, "seed": 0, "spell": spell})
+    # far initial guesses (the same offset 4 / 10 / 15 in every component: the Jacobian stays a multiple of the
+    # identity, i.e. perfectly conditioned) on a map whose contraction weakens far away - the full quasi-Newton step
+    # overshoots and the Armijo line search has to backtrack through its quadratic AND cubic stages;
+    # and a non-contractive map on which Anderson acceleration / the root finders still converge
+    for functional in ("rootfinder", "equilibrium"):
+        for (method, alpha, ls, fnd, variant) in _method_variants(functional, tier):
+            for family, guesses in (("atan", ("u4", "u10", "u15")), ("expand", ("zero", "far", "near"))):
+                if family == "atan" and (ls is False or method == "linearmixing" or alpha == "auto"):
+                    continue        # without the line search the full steps may legitimately diverge from afar
+                if family == "expand" and (method == "linearmixing" or alpha == "auto"):
+                    continue        # plain mixing with alpha = -1 is the diverging fixed-point iteration
+                for (n, kind) in ((1, "n"), (2, "2n"), (5, "n")):
+                    if fnd == "all" and kind == "n":
+                        continue
+                    for guess in guesses:
+                        if guess == "u15" and method == "anderson_acc":
+                            continue    # Anderson mixing has no globalisation: from this far it is not covered
+                        for (ft, xt) in _tols("float64", "rf"):
+                            out.append({"functional": functional, "method": method, "variant": variant,
+                                        "alpha": alpha, "line_search": ls, "feat_ndims": fnd, "family": family,
+                                        "dtype": "float64", "n": n, "shape": kind, "guess": guess, "f_tol": ft,
+                                        "x_tol": xt, "maxiter": "gen", "plane": 0, "seed": 0})
     # overshooting steps on short runs (1, 2, 3 iterations): a silent return must not be worse than the guess
     for (method, variant) in (("gd", "gdbig"), ("adam", "adambig")):
         for family in MIN_FAMILIES:
